@@ -192,4 +192,156 @@ func listElement.Prev
 func listElement.Value
   requires l != nil
   ensures aload(l.value) != nil ==> r0 == *aload(l.value)
+-- thread-safe flavour: every call is wrapped in the one RWMutex - write mode for the operations that change
+-- the ring, read mode (or stronger) for the queries - and delegates to the lock-free method, whose contract
+-- it inherits unchanged. The lock kind is asserted at the delegating call site (ghost before call).
+type threadSafeList
+  monitor mutex level 5 guards
+
+func threadSafeList.Init
+  opt sequential
+  requires t != nil && t.list != nil && unlocked(t.mutex)
+  requires t.list != nil && forall e *listElement :: aload(e.list) != t.list
+  requires aload(t.list.root.list) != t.list
+  modifies atomic(t.list.root.next), atomic(t.list.root.prev), t.list.len, monitor(t)
+  ensures r0 != nil && inv(t.list) && t.list.len == 0
+  ensures aload(t.list.root.next) == as(*listElement, addr(t.list.root)) && aload(t.list.root.prev) == as(*listElement, addr(t.list.root))
+  ghost before call list.Init: assert held(t.mutex)
+  ensures unlocked(t.mutex)
+
+func threadSafeList.PushFront
+  opt sequential
+  requires t != nil && t.list != nil && unlocked(t.mutex)
+  requires t.list != nil && inv(t.list)
+  opt assume-no-overflow
+  modifies listElement.next, listElement.prev, listElement.list, t.list.len, monitor(t)
+  ensures inv(t.list) && r0 != nil && typeof(r0) == typeid(*listElement) && fresh(unbox(*listElement, r0))
+  ensures aload(t.list.root.next) == unbox(*listElement, r0) && aload(unbox(*listElement, r0).prev) == as(*listElement, addr(t.list.root)) && aload(unbox(*listElement, r0).list) == t.list
+  ensures aload(unbox(*listElement, r0).next) == (old(aload(t.list.root.next)) == nil ? as(*listElement, addr(t.list.root)) : old(aload(t.list.root.next)))
+  ensures *aload(unbox(*listElement, r0).value) == value
+  ghost before call list.PushFront: assert held(t.mutex)
+  ensures unlocked(t.mutex)
+
+func threadSafeList.PushBack
+  opt sequential
+  requires t != nil && t.list != nil && unlocked(t.mutex)
+  requires t.list != nil && inv(t.list)
+  opt assume-no-overflow
+  modifies listElement.next, listElement.prev, listElement.list, t.list.len, monitor(t)
+  ensures inv(t.list) && r0 != nil && typeof(r0) == typeid(*listElement) && fresh(unbox(*listElement, r0))
+  ensures aload(t.list.root.prev) == unbox(*listElement, r0) && aload(unbox(*listElement, r0).next) == as(*listElement, addr(t.list.root)) && aload(unbox(*listElement, r0).list) == t.list
+  ensures aload(unbox(*listElement, r0).prev) == (old(aload(t.list.root.prev)) == nil ? as(*listElement, addr(t.list.root)) : old(aload(t.list.root.prev)))
+  ensures *aload(unbox(*listElement, r0).value) == value
+  ghost before call list.PushBack: assert held(t.mutex)
+  ensures unlocked(t.mutex)
+
+func threadSafeList.Remove
+  opt sequential
+  requires t != nil && t.list != nil && unlocked(t.mutex)
+  requires t.list != nil && inv(t.list) && element != nil && typeof(element) == typeid(*listElement) && unbox(*listElement, element) != nil && aload(unbox(*listElement, element).value) != nil
+  opt assume-no-overflow
+  modifies listElement.next, listElement.prev, listElement.list, t.list.len, monitor(t)
+  ensures inv(t.list) && r0 == *aload(unbox(*listElement, element).value)
+  ensures old(aload(unbox(*listElement, element).list)) == t.list ==> aload(unbox(*listElement, element).list) == nil && t.list.len == old(t.list.len) - 1
+  ensures old(aload(unbox(*listElement, element).list)) != t.list ==> t.list.len == old(t.list.len) && forall x *listElement :: aload(x.next) == old(aload(x.next)) && aload(x.prev) == old(aload(x.prev)) && aload(x.list) == old(aload(x.list))
+  ghost before call list.Remove: assert held(t.mutex)
+  ensures unlocked(t.mutex)
+
+func threadSafeList.InsertBefore
+  opt sequential
+  requires t != nil && t.list != nil && unlocked(t.mutex)
+  requires t.list != nil && inv(t.list) && position != nil && typeof(position) == typeid(*listElement) && unbox(*listElement, position) != nil
+  opt assume-no-overflow
+  modifies listElement.next, listElement.prev, listElement.list, t.list.len, monitor(t)
+  ensures inv(t.list)
+  ensures old(aload(unbox(*listElement, position).list)) == t.list ==> r0 != nil && typeof(r0) == typeid(*listElement) && aload(unbox(*listElement, r0).next) == unbox(*listElement, position) && aload(unbox(*listElement, position).prev) == unbox(*listElement, r0) && aload(unbox(*listElement, r0).prev) == old(aload(unbox(*listElement, position).prev)) && t.list.len == old(t.list.len) + 1
+  ensures old(aload(unbox(*listElement, position).list)) != t.list ==> r0 == nil && t.list.len == old(t.list.len) && forall x *listElement :: aload(x.next) == old(aload(x.next)) && aload(x.prev) == old(aload(x.prev)) && aload(x.list) == old(aload(x.list))
+  ghost before call list.InsertBefore: assert held(t.mutex)
+  ensures unlocked(t.mutex)
+
+func threadSafeList.InsertAfter
+  opt sequential
+  requires t != nil && t.list != nil && unlocked(t.mutex)
+  requires t.list != nil && inv(t.list) && position != nil && typeof(position) == typeid(*listElement) && unbox(*listElement, position) != nil
+  opt assume-no-overflow
+  modifies listElement.next, listElement.prev, listElement.list, t.list.len, monitor(t)
+  ensures inv(t.list)
+  ensures old(aload(unbox(*listElement, position).list)) == t.list ==> r0 != nil && typeof(r0) == typeid(*listElement) && aload(unbox(*listElement, r0).prev) == unbox(*listElement, position) && aload(unbox(*listElement, position).next) == unbox(*listElement, r0) && aload(unbox(*listElement, r0).next) == old(aload(unbox(*listElement, position).next)) && t.list.len == old(t.list.len) + 1
+  ensures old(aload(unbox(*listElement, position).list)) != t.list ==> r0 == nil && t.list.len == old(t.list.len) && forall x *listElement :: aload(x.next) == old(aload(x.next)) && aload(x.prev) == old(aload(x.prev)) && aload(x.list) == old(aload(x.list))
+  ghost before call list.InsertAfter: assert held(t.mutex)
+  ensures unlocked(t.mutex)
+
+func threadSafeList.MoveToFront
+  opt sequential
+  requires t != nil && t.list != nil && unlocked(t.mutex)
+  requires t.list != nil && inv(t.list) && element != nil && typeof(element) == typeid(*listElement) && unbox(*listElement, element) != nil
+  modifies listElement.next, listElement.prev, monitor(t)
+  ensures inv(t.list)
+  ensures aload(unbox(*listElement, element).list) == t.list ==> aload(t.list.root.next) == unbox(*listElement, element)
+  ensures aload(unbox(*listElement, element).list) != t.list ==> forall x *listElement :: aload(x.next) == old(aload(x.next)) && aload(x.prev) == old(aload(x.prev))
+  ghost before call list.MoveToFront: assert held(t.mutex)
+  ensures unlocked(t.mutex)
+
+func threadSafeList.MoveToBack
+  opt sequential
+  requires t != nil && t.list != nil && unlocked(t.mutex)
+  requires t.list != nil && inv(t.list) && element != nil && typeof(element) == typeid(*listElement) && unbox(*listElement, element) != nil
+  modifies listElement.next, listElement.prev, monitor(t)
+  ensures inv(t.list)
+  ensures aload(unbox(*listElement, element).list) == t.list ==> aload(t.list.root.prev) == unbox(*listElement, element)
+  ensures aload(unbox(*listElement, element).list) != t.list ==> forall x *listElement :: aload(x.next) == old(aload(x.next)) && aload(x.prev) == old(aload(x.prev))
+  ghost before call list.MoveToBack: assert held(t.mutex)
+  ensures unlocked(t.mutex)
+
+func threadSafeList.MoveBefore
+  opt sequential
+  requires t != nil && t.list != nil && unlocked(t.mutex)
+  requires t.list != nil && inv(t.list) && element != nil && position != nil && typeof(element) == typeid(*listElement) && typeof(position) == typeid(*listElement) && unbox(*listElement, element) != nil && unbox(*listElement, position) != nil
+  modifies listElement.next, listElement.prev, monitor(t)
+  ensures inv(t.list)
+  ensures aload(unbox(*listElement, element).list) == t.list && aload(unbox(*listElement, position).list) == t.list && element != position ==> aload(unbox(*listElement, element).next) == unbox(*listElement, position) && aload(unbox(*listElement, position).prev) == unbox(*listElement, element)
+  ensures aload(unbox(*listElement, element).list) != t.list || aload(unbox(*listElement, position).list) != t.list || element == position ==> forall x *listElement :: aload(x.next) == old(aload(x.next)) && aload(x.prev) == old(aload(x.prev))
+  ghost before call list.MoveBefore: assert held(t.mutex)
+  ensures unlocked(t.mutex)
+
+func threadSafeList.MoveAfter
+  opt sequential
+  requires t != nil && t.list != nil && unlocked(t.mutex)
+  requires t.list != nil && inv(t.list) && element != nil && position != nil && typeof(element) == typeid(*listElement) && typeof(position) == typeid(*listElement) && unbox(*listElement, element) != nil && unbox(*listElement, position) != nil
+  modifies listElement.next, listElement.prev, monitor(t)
+  ensures inv(t.list)
+  ensures aload(unbox(*listElement, element).list) == t.list && aload(unbox(*listElement, position).list) == t.list && element != position ==> aload(unbox(*listElement, element).prev) == unbox(*listElement, position) && aload(unbox(*listElement, position).next) == unbox(*listElement, element)
+  ensures aload(unbox(*listElement, element).list) != t.list || aload(unbox(*listElement, position).list) != t.list || element == position ==> forall x *listElement :: aload(x.next) == old(aload(x.next)) && aload(x.prev) == old(aload(x.prev))
+  ghost before call list.MoveAfter: assert held(t.mutex)
+  ensures unlocked(t.mutex)
+
+func threadSafeList.Front
+  opt sequential
+  requires t != nil && t.list != nil && unlocked(t.mutex)
+  requires t.list != nil && inv(t.list)
+  ensures t.list.len == 0 ==> r0 == nil
+  ensures t.list.len != 0 ==> r0 != nil && typeof(r0) == typeid(*listElement) && unbox(*listElement, r0) == aload(t.list.root.next)
+  modifies monitor(t)
+  ghost before call list.Front: assert held(t.mutex) || rheld(t.mutex)
+  ensures unlocked(t.mutex)
+
+func threadSafeList.Back
+  opt sequential
+  requires t != nil && t.list != nil && unlocked(t.mutex)
+  requires t.list != nil && inv(t.list)
+  ensures t.list.len == 0 ==> r0 == nil
+  ensures t.list.len != 0 ==> r0 != nil && typeof(r0) == typeid(*listElement) && unbox(*listElement, r0) == aload(t.list.root.prev)
+  modifies monitor(t)
+  ghost before call list.Back: assert held(t.mutex) || rheld(t.mutex)
+  ensures unlocked(t.mutex)
+
+func threadSafeList.Len
+  opt sequential
+  requires t != nil && t.list != nil && unlocked(t.mutex)
+  requires t.list != nil
+  ensures r0 == t.list.len
+  modifies monitor(t)
+  ghost before call list.Len: assert held(t.mutex) || rheld(t.mutex)
+  ensures unlocked(t.mutex)
+
 @*/
